@@ -33,7 +33,7 @@
 (* with SUFFIX `b`; [CMD] does not say which, so a target matches when one   *)
 (* of the readings matches.                                                  *)
 (***************************************************************************)
-EXTENDS Naturals, Sequences, FiniteSets, TLC
+EXTENDS Integers, Sequences, FiniteSets, TLC
 
 \* [CMD] "TYPE: type of the target. Can be one of the following: ..."
 DocTypes == {"executable", "static_library", "shared_library", "shared_module", "custom", "alias", "run", "jar"}
